@@ -244,6 +244,57 @@ def envadd_cases(ctx, n):
     return cases
 
 
+def cli_output_path_case(ctx, k):
+    """The environment as the real command assembles it (`maestro run --dry -fg -o DIR`): OUTPUT_PATH is the
+    directory given with -o whatever the specification wrote for it - also when it wrote a path built on
+    another variable and placed it after that variable - and labels built on it resolve to that directory."""
+    import c17
+    import scripted as S
+    rng = ctx.rng
+    root = os.path.join(ctx.scratch, "cli-env", "o%d" % k)
+    variables = {}
+    written = rng.choice(["$(BASE)/studies", "$(BASE)/studies", "./studies", "$HOME/studies"])
+    order = rng.choice([("BASE", "OUTPUT_PATH", "N"), ("N", "BASE", "OUTPUT_PATH"), ("OUTPUT_PATH", "BASE", "N")])
+    for name in order:
+        variables[name] = {"BASE": "/lustre/base", "OUTPUT_PATH": written, "N": rng.choice([4, "four"])}[name]
+    spec = {"description": {"name": "outpath", "description": "labels built on the output path"},
+            "env": {"variables": variables, "labels": {"SHARED": "$(OUTPUT_PATH)/shared", "LOG": "$(SHARED)/log.$(N)"}},
+            "study": [{"name": "make", "description": "d",
+                       "run": {"cmd": "mkdir -p $(SHARED) && touch $(OUTPUT_PATH)/made.$(N)",
+                               "restart": "ls $(SHARED) $(BASE)"}},
+                      {"name": "use", "description": "d",
+                       "run": {"cmd": "cat $(SHARED)/x > $(WORKSPACE)/y; echo $(make.workspace)", "depends": ["make"]}}]}
+    if rng.random() < 0.5:
+        spec["global.parameters"] = {"X": {"values": [1, 2], "label": "X.%%"}}
+        spec["study"][0]["run"]["cmd"] += " $(X)"
+    S.uninstall()
+    try:
+        _ret, dag = c17._run_cli(spec, root, {"type": "local"}, {"hash_ws": False, "rlimit": 1, "throttle": 0,
+                                                                  "use_tmp": False}, True)
+    except Exception as e:      # noqa
+        return Case({"kind": "cli-env", "spec": spec}, [], [],
+                    [("no-defined-token-survives", "`maestro run --dry -o %s` failed on the specification: %s: %s"
+                      % (root, type(e).__name__, e))], True)
+    finally:
+        S.install()
+    mon = []
+    defined = ["OUTPUT_PATH", "BASE", "N", "SHARED", "LOG", "WORKSPACE", "make.workspace", "X"]
+    for key, rec in dag.values.items():
+        if key == "_source":
+            continue
+        for field in ("cmd", "restart"):
+            text = rec.step.run.get(field) or ""
+            left = [t for t in defined if "$(%s)" % t in text]
+            if left:
+                mon.append(("no-defined-token-survives", "maestro run -o: %s.%s still contains %s: %r (OUTPUT_PATH "
+                            "written as %r, variables in the order %s)" % (key, field, left, text[:120], written, order)))
+            elif "$(SHARED)" in spec["study"][0 if key.startswith("make") else 1]["run"].get(field, "") and \
+                    (root + "/shared") not in text:
+                mon.append(("simultaneous-substitution", "maestro run -o %s: %s.%s is %r: $(SHARED) is not "
+                            "<-o directory>/shared" % (root, key, field, text[:120])))
+    return Case({"kind": "cli-env", "spec": spec, "written": written, "order": list(order)}, [], [], mon[:3], True)
+
+
 def run(ctx, escalated=False):
     quick = ctx.tier == "quick" and not escalated
     cases = primitive_cases(ctx, 2500 if quick else 80000)
@@ -269,6 +320,11 @@ def run(ctx, escalated=False):
             c.nontrivial = toks >= 2
             cases.append(c)
     ctx.cov["monitor_judged"] = judged
+    import shutil
+    for k in range(12 if quick else 300):
+        cases.append(cli_output_path_case(ctx, k))
+        ctx.count("cli-env")
+    shutil.rmtree(os.path.join(ctx.scratch, "cli-env"), ignore_errors=True)
     for c in cases:
         ctx.count("kind:" + c.data.get("kind", "study"))
     diffs = compare(cases)
